@@ -726,3 +726,6 @@ for _it in ITEMS:
     if _it and str(_it.get('id', '')).endswith('#leftover_check'):
         _it['rewrites'] = list(_it.get('rewrites', [])) + _MD_HOIST
         _it['proofs'] = list(_it.get('proofs', [])) + [_MD_PROOF]
+ITEMS += [
+    dict(src=L, path='impl LiveEvents/fn synthesized_null_emitted', props=['C05'], ensures=[('value', 'r == self.synthesized_null_emitted')]),
+]
